@@ -6,9 +6,11 @@ import random
 
 from .record import mkcfg
 
+# integer cost vectors (uf, ub, wd, rd): default; free disk; uf != ub both ways; wd != rd both ways;
+# exactly one of wd, rd zero (both ways); expensive forward
 COSTS6 = [(1, 1, 2, 2), (1, 1, 0, 0), (2, 1, 1, 3), (1, 2, 3, 1), (3, 1, 5, 2), (1, 3, 1, 1)]
-COSTS12 = COSTS6 + [(1, 1, 1, 0), (1, 1, 0, 3), (2, 3, 7, 1), (5, 2, 3, 3), (1, 4, 10, 10),
-                    (4, 1, 1, 9)]
+COSTS8 = COSTS6 + [(1, 1, 0, 2), (1, 1, 2, 0)]
+COSTS12 = COSTS8 + [(2, 3, 7, 1), (5, 2, 3, 3), (1, 4, 10, 10), (4, 1, 1, 9)]
 
 
 def cv(c):
@@ -76,7 +78,7 @@ def basic(nmax, passes=3):
 def ebox(tier, seed=0):
     """The trace box shared by the executor properties (C01-C04, C08, C09a, C11, C12, C18a)."""
     if tier == "quick":
-        out = (multistage(12) + mixed(16) + revolve_family(12, (1, 2, 3, 4), COSTS6)
+        out = (multistage(12) + mixed(16) + revolve_family(12, (1, 2, 3, 4), COSTS8)
                + twolevel(12, 5, 3) + basic(12))
     else:
         rnd = random.Random(seed)
